@@ -5,6 +5,7 @@ mod detect;
 mod matchers;
 mod semverx;
 mod pypi;
+mod resolvers;
 
 use std::collections::HashMap;
 
@@ -47,6 +48,7 @@ fn main() {
         "matchers" => matchers::run(&args),
         "semver" => semverx::run(&args),
         "pypi" => pypi::run(&args),
+        "resolvers" => resolvers::run(&args),
         other => {
             eprintln!("unknown stream {other}");
             std::process::exit(2);
